@@ -52,7 +52,7 @@ def parseBackend : String → Option Backend
 def linesOf (tr : List Ev) : List String :=
   tr.foldr (fun e acc => match e with | .sent _ ls => ls ++ acc | _ => acc) []
 
-def gotCount (tr : List Ev) : Nat := tr.foldl (fun n e => match e with | .got _ _ => n + 1 | _ => n) 0
+def gotCount (tr : List Ev) : Nat := repliesRead tr
 
 /-- the conforming reply to line `l` (the `g`-th line; `prev` = the line before it) -/
 def niceReply (b : Backend) (sh : Shape) (g : Nat) (l prev : String) (polls : Nat) : Reply :=
@@ -116,18 +116,27 @@ def faultReply (b : Backend) (kind : String) (nice : Reply) (g : Nat) : Reply :=
   | "jobfail" => { flags := [.wellFormed] }
   | _ => nice
 
+def showLike (l : String) : Bool :=
+  l.startsWith "sh " || l.startsWith "show " || l == "write term" || l.startsWith "uname" || l.startsWith "hostname"
+    || l.startsWith "grep" || l == "iptables-save" || l == "ip route show" || l.startsWith "which"
+
 def mkDev (b : Backend) (sh : Shape) (pos : Option Nat) (kind : String) : Dev := fun tr =>
-  let g := gotCount tr
+  let http := b == .panos || b == .nsx
+  -- console: reply g answers line g (reply 0 is the preamble); HTTP: reply g answers request g+1
+  let g := if http then gotCount tr + 1 else gotCount tr
   let ls := linesOf tr
   let l := if g == 0 then "" else ls.getD (g - 1) ""
   let prev := if g < 2 then "" else ls.getD (g - 2) ""
   let polls := ((ls.take (g - 1)).filter (· == "show jobs")).length
   let nice := niceReply b sh g l prev polls
+  -- the bytes `WARNING: …` are a notice in the reply to a configuration command and unexpected
+  -- output in place of the output of a show command
+  let kind := if kind == "warntext" && showLike l then "unexpected" else kind
   match pos with
   | none => nice
   | some p =>
     if g == p then faultReply b kind nice g
-    else if g > p && b != .panos && b != .nsx then
+    else if g > p && !http then
       (if kind == "silence" || kind == "truncated" then { arr := .silent }
        else if kind == "close" then { arr := .closed } else nice)
     else nice
@@ -149,6 +158,7 @@ def firstBadAt (bad : Role → Reply → Bool) (tr : List Ev) : Int := Id.run do
   for e in tr do
     match e with
     | .got ρ r => if bad ρ r then return g else g := g + 1
+    | .skipped _ => g := g + 1
     | _ => pure ()
   return -1
 
